@@ -56,12 +56,13 @@ def npFraunhofer (u : CGrid α n m) (dx lam k z : α) : CGrid α n m :=
     let c : Cx α := Cx.expi (k * z) * (⟨0, -((1 : α) / (lam * z))⟩ : Cx α) * Cx.expi (k / (Num.two * z) * (Num.sq FX + Num.sq FY))
     Cx.smul (Num.sq dx) (c * F.get i j)
 
-/-- NumPy `propagate_beam`: the five modelled methods -/
+/-- NumPy `propagate_beam`: the five modelled methods; `IR Fresnel` / `TR Fresnel` are the documented short names (the default of
+    `propagate_beam`, `gerchberg_saxton`, `gerchberg_saxton_3d`), accepted since the repair of finding F40 -/
 def npBeam (ptype : String) (u : CGrid α n m) (dx lam k z : α) : Option (CGrid α n m) :=
   if ptype = "Angular Spectrum" then some (npAS u dx lam k z)
   else if ptype = "Bandlimited Angular Spectrum" then some (npBL u dx lam k z)
-  else if ptype = "Transfer Function Fresnel" then some (npTF u dx lam k z)
-  else if ptype = "Impulse Response Fresnel" then some (npIR u dx lam k z)
+  else if ptype = "Transfer Function Fresnel" ∨ ptype = "TR Fresnel" then some (npTF u dx lam k z)
+  else if ptype = "Impulse Response Fresnel" ∨ ptype = "IR Fresnel" then some (npIR u dx lam k z)
   else if ptype = "Fraunhofer" then some (npFraunhofer u dx lam k z)
   else none
 
